@@ -13,7 +13,7 @@ C06.label  the in-place reader accepts labels of up to exactly 63 octets (cap
 import re
 
 from mirlib import BranchFacts, strip, deep_strip, show, walk, const_value, iter_operands
-from rulelib import bool_facts, relations, return_assignments, underlying_calls
+from rulelib import bool_facts, cyclic_blocks, relations, return_assignments, underlying_calls
 import sigs
 import c03
 
@@ -248,6 +248,9 @@ def rule_esc(ctx, F):
         return
     raw = c03._writer_raw_set(w, F)
     delim = reader_delimiters(F)
+    if raw is not None and not ctx.anchor(R, "octet classification of <Label as Display>::fmt (letters and digits printed raw)",
+                                          set(b"abcxyzABCXYZ0189-_") <= raw, w.where()):
+        return
     if raw is None or delim is None or not delim:
         ctx.ob(R, w, "shape", False, "writer/reader classifier shape not recognised")
         return
@@ -334,33 +337,69 @@ def rule_label(ctx, F):
             bb = t["t"]
         else:
             break
-    start = [env.get(pl[0]) for n, pl in b.vars if n == "start" and len(pl) == 1]
-    latest = [env.get(pl[0]) for n, pl in b.vars if n == "latest" and len(pl) == 1]
-    ok = bool(start) and bool(latest) and start[0] is not None and latest[0] is not None and \
-        latest[0].get("S") == start[0].get("S") == 1 and latest[0].get(1, 0) - start[0].get(1, 0) == 65
-    ctx.ob(R, b, "write-cursor cap = label start + 65 (63 payload octets + length octet)", ok,
-           "convert_label caps the write cursor at start + %s: labels of up to %s octets are accepted (must be exactly 63)"
-           % ((latest[0].get(1, 0) - start[0].get(1, 0)) if start and latest and start[0] and latest[0] else "?",
-              (latest[0].get(1, 0) - start[0].get(1, 0) - 2) if start and latest and start[0] and latest[0] else "?"))
-    # both loops reject when the cursor reaches the cap
-    guards = 0
-    for bi in b.reachable_blocks():
+    # the guards: comparisons of the write cursor (*write, the second parameter) with a local whose
+    # value the straight-line prefix fixed relative to the entry cursor S.  Roles, not names.
+    errs = {r[0] for r in return_assignments(b) if r[2] == "Err"}
+    cyc = cyclic_blocks(b)
+    payloads = []
+    for bi in sorted(b.reachable_blocks()):
         t = b.blocks[bi]["t"]
-        if t["k"] == "switch" and t["ty"] == "bool":
-            p = deep_strip(b.term_of_operand(t["d"]))
-            if p[0] == "bin" and p[1] == "Ge":
-                rhs_names = {b.var_name(s[1]) for s in walk(p[3]) if s[0] in ("local", "phi")}
-                dl = t["d"][1][0] if t["d"][0] in ("c", "m") else None
-                for d in b.defs().get(dl, []):
-                    if d[0] == "stmt" and d[3][0] == "bin":
-                        o = d[3][3]
-                        if o[0] in ("c", "m") and len(o[1]) == 1:
-                            src = o[1][0]
-                            for dd in b.defs().get(src, []):
-                                if dd[0] == "stmt" and dd[3][0] == "use" and dd[3][1][0] in ("c", "m") and b.var_name(dd[3][1][1][0]) == "latest":
-                                    guards += 1
-    ctx.ob(R, b, "both conversion loops check the cap after every octet", guards >= 2,
-           "expected `*write >= latest` checks in the in-place and the copying loop, found %d" % guards)
+        if t["k"] != "switch" or t["ty"] != "bool" or t["d"][0] not in ("c", "m"):
+            continue
+        for d in b.defs().get(t["d"][1][0], []):
+            if d[0] != "stmt" or d[3][0] != "bin" or d[3][1] not in ("Ge", "Gt", "Le", "Lt"):
+                continue
+            op, lhs, rhs = d[3][1], d[3][2], d[3][3]
+
+            def root(o):
+                """('cursor',) | ('lin', value) | None for an operand local"""
+                if o[0] not in ("c", "m"):
+                    return None
+                if o[1] == [2, "*"]:
+                    return ("cursor",)
+                if len(o[1]) != 1:
+                    return None
+                loc = o[1][0]
+                for dd in b.defs().get(loc, []):
+                    if dd[0] == "stmt" and dd[3][0] == "use" and dd[3][1][0] in ("c", "m"):
+                        if dd[3][1][1] == [2, "*"]:
+                            return ("cursor",)
+                        if len(dd[3][1][1]) == 1 and env.get(dd[3][1][1][0]) is not None:
+                            return ("lin", env[dd[3][1][1][0]])
+                if env.get(loc) is not None:
+                    return ("lin", env[loc])
+                return None
+            l, r = root(lhs), root(rhs)
+            if l == ("cursor",) and r and r[0] == "lin":
+                lim = r[1]
+            elif r == ("cursor",) and l and l[0] == "lin":
+                lim = l[1]
+                op = {"Ge": "Le", "Gt": "Lt", "Le": "Ge", "Lt": "Gt"}[op]
+            else:
+                continue
+            if lim.get("S") != 1 or bi not in cyc:
+                continue
+            # cursor OP lim ; which edge continues the loop?
+            for s, lab in b.succs(bi):
+                reach = b.reach_from(s)
+                if bi not in reach:
+                    continue   # leaves the loop (the error exit)
+                truth = (lab != ("v", 0))
+                # largest cursor value on the continuing edge
+                k = lim.get(1, 0)
+                if (op == "Ge" and not truth) or (op == "Lt" and truth):
+                    mx = k - 1
+                elif (op == "Gt" and not truth) or (op == "Le" and truth):
+                    mx = k
+                else:
+                    continue
+                payloads.append((bi, mx - 1))   # cursor - S - 1 (the length octet sits at S)
+    ctx.ob(R, b, "both conversion loops bound the write cursor", len(payloads) >= 2,
+           "expected a cursor guard in the in-place loop and in the copying loop of convert_label, found %d" % len(payloads))
+    for n_, (bi, pay) in enumerate(sorted(payloads)):
+        ctx.ob(R, b, "loop#%d admits label payloads of up to exactly 63 octets" % (n_ + 1), pay == 63,
+               "convert_label continues with up to %d payload octets in a label (the write cursor may reach "
+               "entry + %d): labels must be 1..=63 octets" % (pay, pay + 1), b.where(bi))
 
 
 def _eval(rv, env, mem):
